@@ -68,7 +68,11 @@ namespace GeographicLib {
           / atan2(        ty - tx , 1 +         tx * ty);
       else {
         tx = 1/tx; ty = 1/ty;
-        r = atan2(base::_fm1 * (ty - tx), base::_e2m1 + tx * ty)
+        r = tx == ty ?
+          // The reciprocals of distinct tx and ty can round to the same
+          // number; use the limit to avoid 0/0
+          base::_fm1 * (1 + tx * tx) / (base::_e2m1 + tx * tx) :
+          atan2(base::_fm1 * (ty - tx), base::_e2m1 + tx * ty)
           / atan2(        ty - tx ,   1   + tx * ty);
       }
     }
